@@ -171,3 +171,19 @@ for _name, _body in [("plain", ["int[3] t;", "return t[a];"]), ("first-of-two", 
                      ("compound", ["int[3] t;", "t[a] += i;", "return t[0];"]), ("vector", ["float3 v;", "return v[a];"]), ("struct-field", ["S0 s;", "int[2] t;", "return t[s.b];"]),
                      ("expr", ["int[3] t;", "return t[a * 2.0];"]), ("member-array", ["S1 s;", "return s.arr[a];"])]:
     add("floatidx-" + _name, fn("float a, int i) -> float", _body, (S2 if "S1" in " ".join(_body) else S) + _FI))
+
+# ---- a declaration as the un-braced branch of an if / else / loop, used afterwards (rejected today: the variable is not visible after
+# the branch); the branch is not taken for small inputs
+add("leak-if-decl", fn("int a) -> int", ["if (a > 1000) int x = 5;", "return x + a;"]))
+add("leak-else-decl", fn("int a) -> int", ["if (a < 1000) a = a + 1; else int x = 5;", "return x + a;"]))
+add("leak-if-decl-vector", fn("int a) -> float", ["if (a > 1000) float3 v = float3(1, 2, 3);", "return v.y + a;"]))
+add("leak-while-decl", fn("int a) -> int", ["while (a > 1000) int x = 5;", "return x + a;"]))
+add("leak-for-decl", fn("int a) -> int", ["for (int i = 0; i < a - 1000; ++i) int x = 5;", "return x + a;"]))
+# ---- float literals in integer positions whose value is then used as an index (call argument, constructor argument, initialiser)
+_HI = "function h(int i) -> int\n{\n  int[3] t;\n  t[1] = 7;\n  return t[i];\n}\n"
+add("litidx-call", fn("int a) -> int", ["return h(1.5) + a;"], _HI))
+add("litidx-call2", fn("int a) -> int", ["int[3] t;", "return t[h(0.5)] + h(2.0);"], _HI))
+add("litidx-cons", fn("int a) -> int", ["int[3] t;", "int2 k = int2(1.5, 0);", "return t[k.x] + a;"]))
+add("litidx-cons-direct", fn("int a) -> int", ["int[3] t;", "return t[int2(2.5, 0).x] + a;"]))
+add("litidx-scalar-cons", fn("int a) -> int", ["int[3] t;", "int k = int(1.5);", "return t[k] + a;"]))
+add("litidx-uint", fn("int a) -> int", ["int[3] t;", "uint k = uint(2.5);", "return t[k] + a;"]))
